@@ -222,3 +222,67 @@ Definition sym_inputs (nw nc nx : Z) (e p : list Z) : @inputs sx :=
     else None.
 
 Definition sym_A (n : nat) : list (@val sx) := map (fun k => VF (SIn id_A (Z.of_nat k))) (seq 0 n).
+
+(* ---- part='diagonal' (C10): the rank-1 kernel against the diagonal of the rank-2 kernel ---- *)
+Fixpoint diag_of {A} (n : nat) (k : nat) (l : list A) : list A :=
+  (* entries k*(n+1) for k = 0 .. n-1 of a row-major n x n list: take the head, drop n+1 *)
+  match k with
+  | O => []
+  | S k' => match l with
+            | [] => []
+            | a :: _ => a :: diag_of n k' (skipn (S n) l)
+            end
+  end.
+
+Definition s_zeros (n : nat) : list (@val sx) := repeat (VF (SZc 0)) n.
+
+Definition diagonal_equiv (inp : @inputs sx) (k_full k_diag : list stmt) (n : nat) : bool :=
+  forallb nobr k_full && forallb nobr k_diag &&
+  match s_run inp k_full (s_zeros (n * n)), s_run inp k_diag (s_zeros n) with
+  | Some rf, Some rd =>
+      let df := diag_of n n rf in
+      Nat.eqb (List.length df) n && vals_equal (atoms_of_vals rd (atoms_of_vals df [])) df rd
+  | _, _ => false
+  end.
+
+Section ZDiag.
+Variable of_lit : Z -> Z -> Z.
+Variable of_clit : Z -> Z -> Z -> Z -> Z.
+Variable tdiv : Z -> Z -> Z.
+Variable teqb tltb tleb : Z -> Z -> bool.
+Variable tfn : string -> list Z -> Z.
+Variable rho : ident -> Z -> Z.
+
+Notation vmapZ := (vmap Z (fun z => z) of_lit of_clit Z.add Z.sub Z.mul tdiv Z.opp tfn rho).
+Notation imapZ := (imap Z (fun z => z) of_lit of_clit Z.add Z.sub Z.mul tdiv Z.opp tfn rho).
+Notation z_run := (@run_kernel Z (fun z => z) of_lit of_clit Z.add Z.sub Z.mul tdiv Z.opp teqb tltb tleb tfn).
+
+Lemma diag_of_map {A B} (f : A -> B) n : forall k l, diag_of n k (map f l) = map f (diag_of n k l).
+Proof.
+  induction k as [|k IH]; intros l; simpl; [reflexivity|].
+  destruct l as [|a l]; simpl; [reflexivity|]. f_equal.
+  rewrite <- IH. f_equal. rewrite <- skipn_map. reflexivity.
+Qed.
+
+Lemma map_s_zeros n : map vmapZ (s_zeros n) = repeat (VF 0) n.
+Proof. unfold s_zeros. induction n as [|n IH]; simpl; [reflexivity|]. rewrite IH. reflexivity. Qed.
+
+Theorem diagonal_equiv_sound inp k_full k_diag n :
+  diagonal_equiv inp k_full k_diag n = true ->
+  exists rf rd,
+    z_run (imapZ inp) k_full (repeat (VF 0) (n * n)) = Some rf /\
+    z_run (imapZ inp) k_diag (repeat (VF 0) n) = Some rd /\
+    rd = diag_of n n rf /\ List.length rd = n.
+Proof.
+  unfold diagonal_equiv. intros H.
+  apply andb_true_iff in H. destruct H as [H H3]. apply andb_true_iff in H. destruct H as [H1 H2].
+  destruct (s_run inp k_full (s_zeros (n * n))) as [rf|] eqn:E1; [|discriminate].
+  destruct (s_run inp k_diag (s_zeros n)) as [rd|] eqn:E2; [|discriminate].
+  apply andb_true_iff in H3. destruct H3 as [Hl Hv]. apply Nat.eqb_eq in Hl.
+  exists (map vmapZ rf), (map vmapZ rd). rewrite <- !map_s_zeros. split; [|split; [|split]].
+  - apply (run_hom Z (fun z => z) of_lit of_clit Z.add Z.sub Z.mul tdiv Z.opp teqb tltb tleb tfn rho inp k_full _ rf H1 E1).
+  - apply (run_hom Z (fun z => z) of_lit of_clit Z.add Z.sub Z.mul tdiv Z.opp teqb tltb tleb tfn rho inp k_diag _ rd H2 E2).
+  - rewrite diag_of_map. symmetry. apply (vals_equal_sound of_lit of_clit tdiv tfn rho _ _ _ Hv).
+  - rewrite <- (vals_equal_sound of_lit of_clit tdiv tfn rho _ _ _ Hv). rewrite map_length. exact Hl.
+Qed.
+End ZDiag.
